@@ -12,7 +12,9 @@
      fx_neg = true : negative scales use the exact power 10^-scale (x * pow(10,-scale), x / pow(10,-scale)) in
                      bufr_cvt_i64_to_dval, bufr_cvt_dval_to_i64 and bufr_descriptor_get_range
                      (false: x / pow(10,scale) and x * pow(10,scale) with the inexact 10^scale);
-     fx_f32 = true : the single-precision functions keep pow(10,scale) in a double (false: in a float).
+     fx_f32 = true : the single-precision functions keep pow(10,scale) in a double (false: in a float);
+     fx_f32n = true: (only with fx_f32) the single-precision functions use the exact 10^-scale for negative scales, like
+                     the double functions with fx_neg (false: x / pow(10,scale), x * pow(10,scale)).
    Definitions only. *)
 From Coq Require Import ZArith Bool QArith.
 From Flocq Require Import Core BinarySingleNaN.
@@ -170,6 +172,7 @@ Section WithPow.
 Variable pow10 : Z -> b64.       (* pow(10.0, (double)k) of libm *)
 Variable fx_neg : bool.
 Variable fx_f32 : bool.
+Variable fx_f32n : bool.
 
 (* bufr_cvt_i64_to_dval: (double)(int64)(ival+reference) / 10^scale *)
 Definition cvt_i64_to_dval (en : enc) (ival : Z) : b64 :=
@@ -226,7 +229,9 @@ Definition cvt_i32_to_fval (en : enc) (ival : Z) : b32 :=
   if ival =? missing then flt_max else
   let num := if (ref <? 0) && (ival <? wrap32 (- ref)) then f_of_Z (sint32 (wrap32 (ival + ref)))
              else f_of_Z (wrap32 (ival + ref)) in
-  if fx_f32 then d2f (ddiv (f2d num) (pow10 (e_scale en)))       (* double val_pow: float / double is a double division *)
+  if fx_f32 then                                                 (* double val_pow: float op double is a double operation *)
+    (if fx_f32n && (e_scale en <? 0) then d2f (dmul (f2d num) (pow10 (- e_scale en)))
+     else d2f (ddiv (f2d num) (pow10 (e_scale en))))
   else fdiv num (d2f (pow10 (e_scale en))).
 
 (* bufr_cvt_fval_to_i32 with `float val_pow` *)
@@ -277,8 +282,10 @@ Definition cvt_fval_to_i32_dbl (desc : Z) (en : enc) (fval : b32) : Z :=
   let maxval := wrap64 (2 ^ nbits - 1) in
   let val_pow := pow10 scale in
   let ival_pow := cvt_si32 val_pow in
-  let fmin := d2f (ddiv (d_of_Z ref) val_pow) in
-  let fmax := d2f (ddiv (d_of_Z (sint64 (maxval - 1 + ref))) val_pow) in
+  let exact_neg := fx_f32n && (scale <? 0) in
+  let fmin := if exact_neg then d2f (dmul (d_of_Z ref) (pow10 (- scale))) else d2f (ddiv (d_of_Z ref) val_pow) in
+  let fmax := if exact_neg then d2f (dmul (d_of_Z (sint64 (maxval - 1 + ref))) (pow10 (- scale)))
+              else d2f (ddiv (d_of_Z (sint64 (maxval - 1 + ref))) val_pow) in
   if bgt fval fmax then
     (if desc_x desc =? 31 then
        let ival := wrap32 (cvt_si32 fval) in if ival =? maxval then ival else wrap32 missing
@@ -303,7 +310,7 @@ Definition cvt_fval_to_i32_dbl (desc : Z) (en : enc) (fval : b32) : Z :=
         wrap32 (sval - ref) in
     if maxval <=? ival then wrap32 missing else ival
   else
-    let sval := cvt_si32 (dround (dmul (f2d fval) val_pow)) in
+    let sval := cvt_si32 (dround (if fx_f32n then ddiv (f2d fval) (pow10 (- scale)) else dmul (f2d fval) val_pow)) in
     let ival := wrap32 (sval - ref) in
     if maxval <=? ival then wrap32 missing else ival.
 
